@@ -6,11 +6,13 @@ use crate::clock::{self, US_PER_MS, US_PER_S};
 use crate::codec::{self, PVal, Packet, Prop};
 use crate::world::*;
 
-const RECEIVE_MAX_OF_CLIENT: usize = 8;
 
 pub fn delay_us(w: &mut World, tag: u64, label: u64) -> u64 {
     if w.benign {
         return 0;
+    }
+    if let Some(d) = w.force_delay.take() {
+        return d;
     }
     const LAWS: [&[u64]; 4] = [
         &[0],
@@ -204,7 +206,12 @@ pub fn on_client_packet(w: &mut World, conn: usize, idx: usize, raw: &[u8]) {
             if never {
                 w.fault("pingresp_withheld");
             } else {
-                let d = delay_us(w, 0x9100 + idx as u64, 2);
+                let mut d = delay_us(w, 0x9100 + idx as u64, 2);
+                if w.cfg.profile == Profile::Timing && w.tape.chance(1, 6) {
+                    // exactly around the documented 5 s round-trip bound
+                    d = 5 * US_PER_S - 1 + w.tape.choose(3) as u64;
+                    w.probe("pingresp_around_timeout_bound");
+                }
                 send(w, conn, d, &Packet::PingResp, RxMeta::PingResp);
             }
         }
@@ -323,13 +330,20 @@ fn on_connect(w: &mut World, conn: usize, pkt: &Packet) {
             format!("CONNECT session expiry {} configured {}", sei, w.cfg.session_expiry),
         );
     }
-    match rm {
-        Some(v) if v as usize == RECEIVE_MAX_OF_CLIENT => {}
-        other => w.violate(
+    // The value is the client's own business (absent = 65535), but it must be legal and the
+    // same on every connection of a session.
+    let rm_eff = rm.unwrap_or(65535);
+    if rm == Some(0) {
+        w.violate("C09", "connect-receive-maximum-zero".into(), "CONNECT Receive Maximum 0 is illegal".into());
+    }
+    match w.client_receive_max {
+        None => w.client_receive_max = Some(rm_eff),
+        Some(prev) if prev != rm_eff => w.violate(
             "C09",
-            "connect-receive-maximum".into(),
-            format!("CONNECT Receive Maximum {:?}, expected {}", other, RECEIVE_MAX_OF_CLIENT),
+            "connect-receive-maximum-changed".into(),
+            format!("CONNECT Receive Maximum {} differs from the {} advertised on an earlier connection", rm_eff, prev),
         ),
+        _ => {}
     }
     let want_will = w.cfg.will.as_ref().map(|c| codec::WillMsg {
         qos: c.qos,
@@ -791,7 +805,8 @@ fn on_retained_class(w: &mut World, conn: usize, idx: usize, raw: &[u8], pkt: &P
     }
     // C02 order: retained-class packets appear in acceptance order on every connection
     let seq = w.reqs[ri].issue_seq;
-    if let Some(last) = w.conns[conn].last_retained_seq {
+    let is_pub1 = w.reqs[ri].kind == ReqKind::Pub && w.reqs[ri].qos == 1;
+    if let (true, Some(last)) = (is_pub1, w.conns[conn].last_retained_seq) {
         if seq < last {
             w.violate(
                 pf,
@@ -800,7 +815,9 @@ fn on_retained_class(w: &mut World, conn: usize, idx: usize, raw: &[u8], pkt: &P
             );
         }
     }
-    w.conns[conn].last_retained_seq = Some(seq);
+    if is_pub1 {
+        w.conns[conn].last_retained_seq = Some(seq);
+    }
     // C05: everything unacknowledged is replayed before any new identifier-bearing packet
     if w.reqs[ri].conn_issued == conn && w.conns[conn].session_present {
         let pending: Vec<u32> = w.conns[conn]
@@ -876,6 +893,12 @@ fn on_retained_class(w: &mut World, conn: usize, idx: usize, raw: &[u8], pkt: &P
 }
 
 fn broker_ack_request(w: &mut World, conn: usize, ri: usize, id: u16) {
+    if w.hold_pubcomp && w.reqs[ri].kind == ReqKind::Pub && w.reqs[ri].qos == 2 {
+        // dense identifier scenario: PUBREC at once, PUBCOMP withheld
+        let p = Packet::Ack { typ: 5, id, reason: None, props: None };
+        send(w, conn, 0, &p, RxMeta::Ack { typ: 5, id, reason: 0 });
+        return;
+    }
     let tag = w.reqs[ri].tag as u64;
     let attempt = w.reqs[ri].tx_by_conn.len() as u64;
     let t = (tag << 8) | attempt;
@@ -1035,7 +1058,7 @@ fn on_pubrel(w: &mut World, conn: usize, id: u16, reason: Option<u8>) {
     }
     // broker reaction: PUBCOMP
     let t = ((tag as u64) << 8) | 0x80 | w.reqs[ri].rel_by_conn.len() as u64;
-    if chance(w, t, 1, w.cfg.p_withhold_ack) {
+    if w.hold_pubcomp || chance(w, t, 1, w.cfg.p_withhold_ack) {
         w.fault("pubcomp_withheld");
         w.withheld_comp.push((conn, id));
         return;
@@ -1066,8 +1089,8 @@ fn on_client_ack(w: &mut World, conn: usize, typ: u8, id: u16, reason: Option<u8
     }
     if !matched {
         match w.conns[conn].owed_acks.pop_front() {
-            Some((t, i, r)) if (t, i, r.unwrap_or(0)) == got => {
-                w.conns[conn].unflushed_acks.push_back((t, i, r));
+            Some((t, i, r)) if (t, i) == (got.0, got.1) && (r.is_none() || r.unwrap_or(0) == got.2) => {
+                w.conns[conn].unflushed_acks.push_back((t, i, Some(got.2)));
             }
             Some(other) => w.violate(
                 "C04",
@@ -1290,20 +1313,28 @@ pub fn on_client_consumed(w: &mut World, conn: usize, meta: RxMeta) {
                 1 => {
                     // (an identifier the client still holds as an unreleased QoS 2 delivery - only
                     // possible after the broker lost its session unnoticed - is flagged 0x91)
-                    let reason = if w.client_qos2_pending.contains(&id.unwrap()) { 0x91 } else { 0 };
-                    w.conns[conn].owed_acks.push_back((4, id.unwrap(), Some(reason)));
-                    w.conns[conn].expect_deliver.push_back(bmsg);
+                    if w.client_qos2_pending.contains(&id.unwrap()) {
+                        // MQTT does not prescribe the answer: any reason code, delivered or not
+                        w.conns[conn].owed_acks.push_back((4, id.unwrap(), None));
+                        w.conns[conn].optional_deliver.push(bmsg);
+                        w.probe("inbound_id_clashes_with_stale_qos2_state");
+                    } else {
+                        w.conns[conn].owed_acks.push_back((4, id.unwrap(), Some(0)));
+                        w.conns[conn].expect_deliver.push_back(bmsg);
+                    }
                 }
                 _ => {
                     let id = id.unwrap();
                     if w.client_qos2_pending.contains(&id) {
                         w.conns[conn].owed_acks.push_back((5, id, Some(0)));
                         w.probe("inbound_qos2_duplicate_suppressed");
-                    } else if w.client_qos2_pending.len() >= RECEIVE_MAX_OF_CLIENT {
+                    } else if w.client_qos2_pending.len() >= w.client_receive_max.unwrap_or(65535) as usize {
                         // The client's advertised Receive Maximum is exhausted (only possible when
                         // the broker forgot exchanges the client still remembers): refuse, do not
                         // deliver.
-                        w.conns[conn].owed_acks.push_back((5, id, Some(0x93)));
+                        // any reason code; delivering it anyway would be just as defensible
+                        w.conns[conn].owed_acks.push_back((5, id, None));
+                        w.conns[conn].optional_deliver.push(bmsg);
                         w.probe("inbound_qos2_receive_maximum_exhausted");
                     } else {
                         w.client_qos2_pending.insert(id);
@@ -1334,6 +1365,12 @@ pub fn on_client_consumed(w: &mut World, conn: usize, meta: RxMeta) {
         }
         RxMeta::Partial => {
             w.expect = Some(Expect::InvalidOrEof);
+        }
+        RxMeta::DupPubRec { reason } => {
+            w.probe("duplicate_pubrec_consumed");
+            if reason >= 0x80 {
+                w.expect = Some(Expect::MaybeReject(reason));
+            }
         }
         RxMeta::Raw => {}
     }
@@ -1375,7 +1412,7 @@ pub fn broker_publish(w: &mut World, conn: usize) -> bool {
     let qos = pick(w, t, 1, 3) as u8;
     if qos > 0 {
         let inflight = w.bmsgs.iter().filter(|m| m.qos > 0 && m.state != 2).count();
-        if inflight >= RECEIVE_MAX_OF_CLIENT {
+        if inflight >= w.client_receive_max.unwrap_or(65535) as usize {
             return false;
         }
     }
@@ -1473,7 +1510,20 @@ pub fn broker_fault(w: &mut World, conn: usize) {
         return;
     }
     let t = 0xF0000 + w.event_no;
-    match pick(w, t, 1, 7) {
+    match pick(w, t, 1, 8) {
+        7 if w.cfg.id_burn == 0 => {
+            // a second PUBREC (success or failure code) for an exchange that is already in its
+            // release phase: the exchange must go on (PUBREL until PUBCOMP)
+            let ep = w.epoch;
+            let r = w.reqs.iter().find(|r| r.kind == ReqKind::Pub && r.qos == 2 && r.epoch == ep && !r.invalidated && r.phase == Phase::Release && r.id.is_some());
+            if let Some(r) = r {
+                let id = r.id.unwrap();
+                let reason = [0u8, 0x10, 0x80, 0x91, 0x97][pick(w, t, 7, 5) as usize];
+                w.fault("duplicate_pubrec_in_release_phase");
+                let p = Packet::Ack { typ: 5, id, reason: if reason == 0 { None } else { Some(reason) }, props: None };
+                send(w, conn, 0, &p, RxMeta::DupPubRec { reason });
+            }
+        }
         6 => {
             // malformed bytes from a buggy peer or middlebox, then the stream ends
             w.fault("broker_garbage");
